@@ -160,7 +160,7 @@ func isClauseStart(w string) bool {
 	if clauseKeywords[w] {
 		return true
 	}
-	return strings.HasPrefix(w, "loop#") || strings.HasPrefix(w, "assert@") || strings.HasPrefix(w, "witness@") || strings.HasPrefix(w, "ghost@")
+	return strings.HasPrefix(w, "loop#") || strings.HasPrefix(w, "assert@") || strings.HasPrefix(w, "witness@") || strings.HasPrefix(w, "ghost@") || strings.HasPrefix(w, "canary@")
 }
 
 type rawLine struct {
@@ -507,6 +507,22 @@ func ParseContractText(data, path, pkg string) (*ContractFile, error) {
 			default:
 				return nil, fail("unknown loop clause %q", w2)
 			}
+		case strings.HasPrefix(w, "canary@"):
+			// canary@<site> <known-finding id> : expr   -- expected to be refuted while the finding exists
+			all := strings.TrimSpace(rl.text[len("canary@"):])
+			idx := strings.Index(all, ":")
+			if idx < 0 {
+				return nil, fail("canary@<site> <id> : expr")
+			}
+			head := strings.Fields(all[:idx])
+			if len(head) < 2 {
+				return nil, fail("canary@<site> <id> : expr")
+			}
+			cl, err := mk(all[idx+1:], len(cur.Sites)+1)
+			if err != nil {
+				return nil, err
+			}
+			cur.Sites = append(cur.Sites, SiteClause{Kind: "canary", Site: strings.Join(head[:len(head)-1], " "), Var: head[len(head)-1], Clause: cl})
 		case strings.HasPrefix(w, "assert@") || strings.HasPrefix(w, "witness@") || strings.HasPrefix(w, "ghost@"):
 			kind := w[:strings.Index(w, "@")]
 			// site is the text after '@' up to ':' ; clause after ':'
